@@ -235,6 +235,10 @@ class FockBackend(BaseFock):
             if len(modes) != len(set(modes)):
                 raise ValueError("The specified modes cannot be duplicated.")
 
+            # ``modes`` are subsystem indices; after a deletion the k-th subsystem does not
+            # sit on the k-th axis any more
+            modes = self._remap_modes(list(modes))
+
             num_modes = len(rho.shape) // 2
             if len(modes) > num_modes:
                 raise ValueError(
